@@ -932,7 +932,10 @@ func (e *Engine) builtin(st *State, name string, args []Value, c *ssa.CallCommon
 		}
 		return true
 	case "close":
-		ret(st, nil)
+		e.chanClose(st, args[0])
+		if st.fr != nil && st.panic == nil {
+			ret(st, nil)
+		}
 		return true
 	case "ssa:wrapnilchk":
 		p, ok := args[0].(PtrVal)
